@@ -292,7 +292,38 @@ def run(chk):
         if len(set(ws)) < 2:
             ws[0] = (ws[0] + 1) % 12
         wlists.append(bytes(ws))
+    # placements of the compressor's own weight multiset over up to 256 symbols (all but the last weight are written):
+    # the source asserts that the compressed description stays below 128 bytes -- the one hypothesis left in
+    # C02_compressor_huffman_section_from_the_literals -- observed here for every such placement
+    nshape0 = len(wlists)
+    for n in (list(range(18, 257)) if thorough else [18, 19, 24, 32, 33, 48, 64, 65, 96, 127, 128, 129, 160, 161, 162, 190, 191, 192, 193, 224, 255, 256]):
+        sh = shapes[n - 2]
+        if not sh:
+            continue
+        for L in sorted(set([n, min(256, n + n // 2), 256])):
+            ws = list(sh) + [0] * (L - n)
+            for i in range(L - 1, 0, -1):
+                j = rng.below(i + 1)
+                ws[i], ws[j] = ws[j], ws[i]
+            if ws[-1] == 0:
+                i = max(j for j in range(L) if ws[j])
+                ws[-1], ws[i] = ws[i], ws[-1]
+            if L - 1 > 16:
+                wlists.append(bytes(ws[:-1]))
     wr = zh_par('entropy', ['fseenc2 6 1 ' + w.hex() for w in wlists])
+    longest = 0
+    for k, (w, r) in enumerate(zip(wlists, wr)):
+        if k >= nshape0:
+            if not r.startswith('ok '):
+                chk.violation('the FSE encoder failed on the weights of a placement of the compressor\'s shape (%d written weights): %s' % (len(w), r[:60]),
+                              {'component': 'weight-description-size', 'input': 'fseenc2 6 1 ' + w.hex(), 'how': 'echo "<input>" | _build/cargo/release/zh entropy'})
+                continue
+            ln = len(r.split()[1]) // 2
+            longest = max(longest, ln)
+            if ln >= 128:
+                chk.violation('the compressed description of the weights of a placement of the compressor\'s shape has %d bytes: write_table asserts fewer than 128' % ln,
+                              {'component': 'weight-description-size', 'input': 'fseenc2 6 1 ' + w.hex(), 'how': 'echo "<input>" | _build/cargo/release/zh entropy'})
+    chk.cov['components']['weight-description-size'] = {'evaluations': len(wlists) - nshape0, 'longest_description_bytes': longest, 'asserted_below': 128}
     wl, wreal = [], []
     for w, r in zip(wlists, wr):
         if r.startswith('ok '):
